@@ -6,10 +6,12 @@
 //! `impl.out` (the implementation's answers) and `report.json`.
 
 mod engines {
+	pub mod cli;
 	pub mod encoding;
 }
 mod props {
 	pub mod c07;
+	pub mod c13;
 }
 mod out;
 mod util;
@@ -34,6 +36,7 @@ fn main() {
 				engines::encoding::run(&mut out, &mut rng.fork(), thorough);
 				props::c07::run(&mut out, &mut rng.fork(), thorough);
 			}
+			"C13" => props::c13::run(&mut out, &mut rng.fork(), thorough),
 			_ => {
 				eprintln!("unknown property {prop}");
 				std::process::exit(3);
